@@ -491,9 +491,10 @@ def check_redefine(ctx):
                 group.append(dict(ref, order=order, split=rng.choice(['single', 'include', 'nested']), cut=rng.randrange(0, len(names)),
                                   spelling=rng.choice(RD_SPELL)))
             # every redefined component in the included part
-            order = [n for n in names if n not in redefs] + redefs
-            group.append(dict(ref, order=order, split='include', cut=len(names) - len(redefs)))
-            group.append(dict(ref, order=order, split='nested', cut=len(names) - len(redefs)))
+            moved = [n for n in redefs if n in names]
+            order = [n for n in names if n not in moved] + moved
+            group.append(dict(ref, order=order, split='include', cut=len(names) - len(moved)))
+            group.append(dict(ref, order=order, split='nested', cut=len(names) - len(moved)))
             cases.append(group)
     flat = [dict(c, n=i) for i, c in enumerate(c for g in cases for c in g)]
     impl = common.pool_map(subject_redefine, flat, procs=min(common.NPROC, 8))
